@@ -199,8 +199,13 @@ int main(int argc, char **argv)
             std::string text;
             is >> id >> text >> lag;
             QMessageLogContext ctx("f.cpp", 1, "fn", "rot");
+            // lag > 0: the message is delivered lag ms after it was created (the clock moves on in between);
+            // lag < 0: the message was created -lag ms ago and is only delivered now, after younger ones (a producer that was pre-empted
+            //          between taking the time stamp and the pipeline's lock, or a wall clock that was stepped back)
+            if (lag < 0) shim::clockAdvance(lag);
             LogMessage m(QtInfoMsg, ctx, unhexs(text));
             long long msgMs = m.time().toMSecsSinceEpoch();
+            if (lag < 0) shim::clockAdvance(-lag);
             if (lag > 0) shim::clockAdvance(lag);
             long r0 = shim::clockReads(), m0 = shim::mutatingCalls();
             if (pipe) pipe->process(m);
